@@ -96,8 +96,9 @@ func (f *Font) MakeGlyphNames() []string {
 		a, b := cmap.CodeRange()
 		for r := a; r <= b; r++ {
 			gid := cmap.Lookup(r)
-			if glyphNames[gid] != "" {
-				// This includes the case of unmapped runes (gid == 0).
+			if int(gid) >= len(glyphNames) || glyphNames[gid] != "" {
+				// This includes the case of unmapped runes (gid == 0),
+				// and of mappings to glyphs the font does not have.
 				continue
 			}
 			name := names.FromUnicode(string(r))
